@@ -371,28 +371,66 @@ theorem sim_genParams (c : Ctx W HS) : (ps : List Param) → (∀ p ∈ ps, isUs
 
 /-! ## closure variables -/
 
-theorem freeHook_envR (c : Ctx W HS) (x : String) :
-    freeHook c.envR x = (lookup c.envR x >>= fun v =>
-      maybeInteract c.envR c.cfg x .noneV none v false false false >>= fun _ => pure ()) := by
-  unfold freeHook maybeInteract
-  simp only [Ctx.envR, annValOpt, annTags, Bool.false_or]
-  congr 1
-  funext v
-  split <;> simp
-
-theorem sim_fetchFree (c : Ctx W HS) (x : String) (hx : isUser x = true) :
+theorem sim_fetchFree (c : Ctx W HS) (lib : LibSpec c) (x : String) (hx : isUser x = true) :
     RelX c (execB c.envI c.fuel [fetchFree c.cfg x]) (stepM (freeHook c.envR x) fun _ => done .normal) := by
-  simp only [fetchFree, execB_single, execS, eval_interactE, evalE, freeHook_envR, stepM_bind, stepM_pure]
-  refine relX_stepM c (relM_lookup c x hx) fun v => ?_
-  exact relX_stepM c (relM_maybe c x .noneV none v false false false) fun r => relX_done c _
+  obtain ⟨hsc, ncls, hn⟩ := lib.pyNameErr
+  have lN : lookup c.envI nPyNameError = pure ncls := by
+    funext st
+    unfold lookup lookupV
+    simp [hsc, Ctx.envI, hn]
+    rfl
+  -- what the two sides run before the handler decides
+  have eL : execB c.envI c.fuel [fetchFree c.cfg x] = tryExcept
+      (stepM (lookup c.envI x >>= fun v => maybeInteract c.envI c.cfg x .noneV none v false false false)
+        fun _ => done .normal)
+      (fun e => if c.host.isinst e ncls then inHandler e none (done .normal) else done (.exc e))
+      (done .normal) := by
+    simp only [fetchFree, execB_single, execS, execB_nil, tryFinally_skip, execHL, eval_interactE, evalE, lN,
+      stepM_pure, postBind, execB_cons, seqX_done_normal, seqX_normal_right]
+    rfl
+  have eR : freeHook c.envR x = fun st =>
+      match (lookup c.envR x >>= fun v => maybeInteract c.envR c.cfg x .noneV none v false false false) st with
+      | (.ok _, st1) => (.ok (), st1)
+      | (.err e, st1) =>
+        if isFatal e then (.err e, st1)
+        else if c.host.isinst e ncls then (.ok (), st1) else (.err e, st1) := by
+    unfold freeHook maybeInteract
+    simp [Ctx.envR, annValOpt, annTags, hn]
+    rfl
+  rw [eL, eR]
+  have hm := relM_bind c (relM_lookup c x hx) fun v => relM_maybe c x .noneV none v false false false
+  intro st' st h
+  obtain ⟨hr, hrel⟩ := hm st' st h
+  unfold tryExcept stepM
+  dsimp only
+  rcases hI : (lookup c.envI x >>= fun v => maybeInteract c.envI c.cfg x .noneV none v false false false) st' with ⟨r', s1'⟩
+  rcases hR : (lookup c.envR x >>= fun v => maybeInteract c.envR c.cfg x .noneV none v false false false) st with ⟨r, s1⟩
+  rw [hI, hR] at hr hrel
+  simp only at hr hrel
+  subst hr
+  cases r' with
+  | ok v => exact ⟨by first | rfl | trivial, hrel⟩
+  | err e =>
+    simp only
+    by_cases hfat : isFatal e = true
+    · simp only [hfat, if_true]
+      exact ⟨by first | rfl | trivial, hrel⟩
+    · simp only [Bool.not_eq_true] at hfat
+      simp only [hfat, Bool.false_eq_true, if_false]
+      by_cases hisn : c.host.isinst e ncls = true
+      · simp only [hisn, if_true, inHandler, done, List.tail_cons]
+        exact ⟨by first | rfl | trivial, hrel⟩
+      · simp only [Bool.not_eq_true] at hisn
+        simp only [hisn, Bool.false_eq_true, if_false, done]
+        exact ⟨by first | rfl | trivial, hrel⟩
 
-theorem sim_fetchFrees (c : Ctx W HS) : (xs : List String) → (∀ x ∈ xs, isUser x = true) →
+theorem sim_fetchFrees (c : Ctx W HS) (lib : LibSpec c) : (xs : List String) → (∀ x ∈ xs, isUser x = true) →
     RelX c (execB c.envI c.fuel (xs.map (fetchFree c.cfg))) (stepM (freeHooks c.envR xs) fun _ => done .normal)
   | [], _ => by simp [execB_nil, freeHooks, stepM_pure]; exact relX_done c _
   | x :: xs, h => by
     simp only [List.map_cons, execB_cons, freeHooks, stepM_bind]
     rw [stepM_as_seq (freeHook c.envR x), ← execB_single]
-    exact relX_seqX c (sim_fetchFree c x (h x (by simp))) (sim_fetchFrees c xs fun y hy => h y (by simp [hy]))
+    exact relX_seqX c (sim_fetchFree c lib x (h x (by simp))) (sim_fetchFrees c lib xs fun y hy => h y (by simp [hy]))
 
 /-! ## `#enter`, `#exit`, `#error`: only the observable state matters -/
 
@@ -500,7 +538,7 @@ theorem inner_core (c : Ctx W HS) (lib : LibSpec c) (ext : List String) (ok : Ex
   have hrel : ∀ s' s, Rel0 c ext (fun y => False ∨ y ∈ ext) s' s → Rel c s' s :=
     fun s' s h => h.toRel ok fun x hx => Or.inr hx
   intro st' st h
-  exact H3.seq (H3.of_relX (sim_fetchFrees c frees hfr))
+  exact H3.seq (H3.of_relX (sim_fetchFrees c lib frees hfr))
     (H3.seq (H3.of_relX (sim_genParams c params hp))
       (H3.of_relX (simB c lib (fun k => ok.nopin _) body1 hcore hsc 1))) st' st (hrel _ _ h)
 
@@ -704,6 +742,7 @@ structure HostSpec (host : Host W HS) : Prop where
   resume : ∃ s, host.glob nResume = some s ∧ ∀ a v w, host.call s [a, v] w = (.ok v, w)
   baseExc : ∃ b, host.glob "BaseException" = some b ∧ ∀ e, host.isinst e b = true
   nameErr : ∃ n, host.glob nNameError = some n
+  pyNameErr : ∃ n, host.glob nPyNameError = some n
   frame : ∃ f, host.glob nFrame = some f
   globals : ∃ g, host.glob nGlobals = some g
     ∧ (∀ x w, host.getitem g (.str x) w = (.ok ((host.glob x).getD .absent), w))
@@ -714,7 +753,19 @@ theorem libSpec_of_host (host : Host W HS) (hh : HostSpec host) (cfg : Cfg) (f :
     (hf : coreF f = true) : LibSpec (ctxOf host cfg f fuel) := by
   simp only [coreF, Bool.and_eq_true, List.all_eq_true] at hf
   obtain ⟨⟨⟨⟨⟨_, hau⟩, heu⟩, _⟩, _⟩, _⟩ := hf
-  refine ⟨?_, ?_, hh.absent, hh.key, hh.suspend, hh.resume, hh.baseExc, hh.nameErr, hh.frame, hh.globals,
+  have notScoped : ∀ x, isUser x = false → (x == "#error") = false → isTemp x = false → scopeInstr f x = false := by
+    intro x hnu h1 h2
+    have ha : (collect f).assigned.contains x = false := by
+      cases hc : (collect f).assigned.contains x
+      · rfl
+      · have := hau x (List.contains_iff_mem.1 hc); rw [hnu] at this; exact absurd this (by decide)
+    have he : (collect f).external.contains x = false := by
+      cases hc : (collect f).external.contains x
+      · rfl
+      · have := heu x (List.contains_iff_mem.1 hc); rw [hnu] at this; exact absurd this (by decide)
+    simp only [scopeInstr, ha, he, h1, h2, Bool.or_false]
+  refine ⟨?_, ?_, hh.absent, hh.key, hh.suspend, hh.resume, hh.baseExc, hh.nameErr,
+    ⟨notScoped nPyNameError (by decide) (by decide) (by decide), hh.pyNameErr⟩, hh.frame, hh.globals,
     hh.truthyBool, fun n => by show scopeInstr f (gensym n) = true; simp [scopeInstr, isTemp_gensym]⟩
   · show scopeInstr f "#error" = true
     simp [scopeInstr]
